@@ -2,7 +2,8 @@
 real encoder output, and assembly of abstract histories into byte strings.
 
 History item (JSON-able):  {"k": kind, "pn": int or None, "off": op or None, "offv": int or None, "fxy": [x, y] or None (fragment offsets override)}
-kinds: SH, SH2 (header differing in one field), PIC, F0, "FS:<cnt>:<start>", PAD, AUX, EOS,
+kinds: SH, SH2 (header differing in one field), SH3 (header differing only in the last coded value), XF0/XFS (first/complete
+       fragment of the other profile), PIC, F0, "FS:<cnt>:<start>", PAD, AUX, EOS,
        FOREIGN (picture of the other profile)
 offset ops: next0, nextwrong, nextsmall, prevwrong, prev0
 """
@@ -99,10 +100,24 @@ class Family(object):
                 cnt = struct.unpack(">H", fu[19:21])[0]
                 self.units["FS:%d:%d" % (cnt, start)] = fu
                 start += cnt
+        # fragments of the *other* profile (same slice grid): their parse codes are not allowed by this family's profile
+        ro = copy.deepcopy(r0)
+        ro["profile"] = 0 if self.profile == 3 else 3
+        ro["pb"] = 16 * self.nsl
+        u = build(self.nsl, ro)
+        self.units["XF0"] = u[1]
+        self.units["XFS"] = u[2]
         version = saved
         r2 = copy.deepcopy(r)
         r2["fr"] = [2, 1]
         self.units["SH2"] = build(0, r2)[0]
+        # a header differing from SH only in its very last coded value (picture coding mode): same length, and with
+        # this frame width the difference sits in the final, partially used byte
+        r3 = copy.deepcopy(r)
+        r3["pcm"] = 0 if r["pcm"] else 1
+        sh3 = build(0, r3)[0]
+        if len(sh3) == len(self.units["SH"]) and sh3 != self.units["SH"]:
+            self.units["SH3"] = sh3
         self.units["PAD"] = b"BBCD\x30" + struct.pack(">II", 16, 0) + b"\x01\x02\x03"
         self.units["AUX"] = b"BBCD\x20" + struct.pack(">II", 15, 0) + b"\xAA\xBB"
         other = 0xC8 if self.profile == 3 else 0xE8
